@@ -46,9 +46,20 @@ def check(repo):
     def contains(have, seq):
         it = iter(have)
         return all(any(x == y for y in it) for x in seq)
+    from collections import Counter
+    def per_file(t):
+        d = {}
+        for k, v in t.items(): d.setdefault(k.split('::', 1)[0], Counter())[v] += 1
+        return d
+    ff, cf = per_file(frozen), per_file(cur)
     for fn, seq in fz.items():
         if fn in cu:
-            if not contains(cu[fn], seq): changed.append({'function': fn, 'frozen': seq, 'current': cu[fn]})
+            if not contains(cu[fn], seq):
+                # the function no longer carries its frozen gates in order; if the FILE still has every frozen gate (as a multiset) the gate was
+                # moved into a helper by a refactoring: not a change of what is read; otherwise a gate was removed or altered
+                f = fn.split('::', 1)[0]
+                if all(cf.get(f, Counter())[g] >= n for g, n in ff[f].items()): continue
+                changed.append({'function': fn, 'frozen': seq, 'current': cu[fn]})
         else:
             # function renamed/moved: fine if some function of the same file carries the sequence; otherwise undecided (never a violation)
             f = fn.split('::', 1)[0]
